@@ -35,8 +35,11 @@ def run(R, tier, seed, driver_ok):
     lines, meta = [], []
     bitwise = [0, 0]
     for rep in range(reps):
-        for name in zoo.ALL:
-            d = int(rng.randint(2, 5))
+        jobs = [(nm_, int(rng.randint(2, 5))) for nm_ in zoo.ALL]
+        # single-feature data: formed points then have the shape (n, 1) of a column of indicators
+        one = [nm_ for nm_ in zoo.ALL if not nm_.startswith('SDML')]
+        jobs += [(nm_, 1) for nm_ in (one if tier != 'quick' else [one[i_] for i_ in rng.choice(len(one), 5, replace=False)])]
+        for name, d in jobs:
             n_classes = int(rng.randint(2, 4))
             X, y = zoo.blobs(rng, d, n_classes, max(5, int(np.ceil(4 * d / n_classes)) + 1))
             n = len(X)
